@@ -177,7 +177,8 @@ def _httpx_hierarchy() -> Dict[str, str]:
 
 
 class Program:
-    def __init__(self, root: str = None, overlay: Optional[Dict[str, str]] = None):
+    def __init__(self, root: str = None, overlay: Optional[Dict[str, str]] = None, rename: str = "auto"):
+        self.rename_mode = rename
         self.root = root or REPO
         self.overlay = overlay or {}
         self.modules: Dict[str, Module] = {}
@@ -209,6 +210,9 @@ class Program:
                 tree = ast.parse(src, filename=rel)
             except SyntaxError as e:
                 raise AnalysisError(f"{rel} does not parse: {e}")
+            if "match " in src or "contextlib" in src:
+                from . import desugar
+                desugar.rewrite(tree)          # match statements as the if / elif chains they abbreviate
             name = rel[:-3].replace(os.sep, ".")
             if name.endswith(".__init__"):
                 name = name[: -len(".__init__")]
@@ -216,6 +220,9 @@ class Program:
             is_test = base.startswith("test_") or "/tests/" in "/" + rel
             m = Module(name=name, rel=rel, path=path, source=src, tree=tree, is_test=is_test)
             self.modules[name] = m
+        # consistent renames of private names are undone first (alpha-equivalent program, see sa/names.py)
+        from . import names
+        self.renamed, self.rename_diag = names.canonicalise({m.rel: m.tree for m in self.modules.values()}, mode=self.rename_mode)
         for m in self.modules.values():
             self._index_imports(m)
         for m in self.modules.values():
@@ -439,6 +446,25 @@ class Program:
                 if isinstance(b, External):
                     out.append(b.name)
         return out
+
+    def record_fields(self, c: ClassInfo) -> Optional[List[Tuple[str, Optional[ast.expr]]]]:
+        """[(field, default expression or None)] when constructing `c` does nothing but store its arguments under these names:
+        a typing.NamedTuple class or a @dataclass without __init__ / __new__ / __post_init__; None otherwise"""
+        names = self.ext_bases(c)
+        deco = {dotted(d.func if isinstance(d, ast.Call) else d) for d in c.node.decorator_list}
+        is_nt = any(n.endswith("NamedTuple") for n in names)
+        is_dc = any(d and d.split(".")[-1] == "dataclass" for d in deco)
+        if not (is_nt or is_dc) or any(m in c.methods for m in ("__init__", "__new__", "__post_init__")):
+            return None
+        out = []
+        for k in reversed(self.mro(c)):
+            for st in k.node.body:
+                if isinstance(st, ast.AnnAssign) and isinstance(st.target, ast.Name) and "ClassVar" not in ast.unparse(st.annotation):
+                    out = [f for f in out if f[0] != st.target.id] + [(st.target.id, st.value)]
+        return out or None
+
+    def is_namedtuple(self, c: ClassInfo) -> bool:
+        return any(n.endswith("NamedTuple") for n in self.ext_bases(c))
 
     def is_subclass(self, c: ClassInfo, other: ClassInfo) -> bool:
         return other in self.mro(c)
